@@ -33,7 +33,15 @@ def run(run_, ctx):
         ("M", "ser_cobs", None, "COBS modifier"),
         ("M", "ser_crc", None, "CRC modifier"),
         ("O", "ser_entry", lambda k: k == "ser::serialize_with_flavor", "serialize_with_flavor"),
+        ("ST", "ser_slice", lambda k: "Index" not in k, "innermost storage: slice"),
+        ("ST", "ser_storage", lambda k: "Size" not in k, "innermost storage: vectors / Extend"),
+        ("ST", "ser_writer", None, "innermost storage: writer"),
+        ("UN", "de_crc", None, "undoing the CRC layer"),
+        ("UN", "de_entry", lambda k: "cobs" in k or "crc" in k, "undoing COBS / CRC at the decode entry points"),
+        ("UN", "ser_entry", lambda k: "cobs" in k or "crc" in k, "stacking COBS / CRC at the encode entry points"),
     ])
+    run_.floor("ST", 20)
+    run_.floor("UN", 40)
     run_.floor("D", 2)
     run_.floor("M", 14)
     run_.floor("O", 1)
